@@ -52,6 +52,7 @@ class Context(object):
 
     def set_targetname(self, t):
         LOG.append(("set_targetname", t))
+        self.targetname = t
 
     def set_session_type(self, t):
         LOG.append(("set_session_type", t))
@@ -72,6 +73,7 @@ class Context(object):
     def command(self, lun, task, dataout, datain):
         rec = {"cdb": task.cdb, "dir": task.dir, "xferlen": task.xferlen, "doutlen": len(dataout),
                "dinlen": len(datain), "dout": bytes(dataout), "lun": lun, "connected": self.connected,
+               "target": getattr(self, "targetname", None),
                "din_id": id(datain), "dout_id": id(dataout)}
         LOG.append(("command", rec))
         status, sense = (0, None) if TARGET is None else TARGET(task.cdb, dataout, datain)
